@@ -130,6 +130,11 @@ def alias(ctx) -> None:
             elif isinstance(s, ast.Call) and isinstance(s.func, ast.Attribute) and s.func.attr in ("append", "extend", "insert"):
                 uses += [("append", a) for a in s.args]
             for how, v in uses:
+                if isinstance(v, ast.Name):
+                    try:
+                        v = ctx.fv(f).res.resolve(v, ctx.fv(f).node_of(v))
+                    except Exception:
+                        pass
                 if isinstance(v, ast.Attribute) and v.attr == "_volumes":
                     count += 1
                     ctx.rep.touch(f)
@@ -140,7 +145,7 @@ def alias(ctx) -> None:
         ctx.rep.inconclusive(rule, "Labware.volumes", "property not found")
         return
     ctx.rep.touch(vol)
-    rets = [s.value for s in own_walk(vol.node) if isinstance(s, ast.Return) and s.value is not None]
+    rets = [t for n, t in ctx.fv(vol).returns()]
     ok = bool(rets) and all(_is_copy(r) for r in rets)
     ctx.rep.check(ok, rule, f"{vol.qualname}/return", "volumes returns a copy", "Labware.volumes does not return a copy of the array", where=vol.where())
 
